@@ -772,7 +772,7 @@ def cmd_c08(out_path, prop="C08"):
         except Exception as e:  # noqa
             rec.frozen = False
             rec.inconclusive.append(f"arm {m['idx']}: harness error {type(e).__name__}: {e}")
-        if prop == "C06" and o["times"] and "case" not in failure:
+        if prop in ("C06", "C08") and o["times"] and "case" not in failure:
             # the same arm under concurrent callers
             cfail = {}
 
